@@ -29,7 +29,7 @@ MatchesState ==
 Matches == (\A f \in DOMAIN Ev.out : hist'[1].out[f] = Ev.out[f]) /\ MatchesState
 
 TraceInit ==
-    /\ l = 1 /\ cfg = [ev |-> FALSE, nb |-> 0, cnt |-> 0, sb |-> 1, sc |-> 1, ne |-> 0] /\ alive = FALSE
+    /\ l = 1 /\ cfg = [ev |-> FALSE, nb |-> 0, cnt |-> 0, sb |-> 1, sc |-> 1, ne |-> 0, glo |-> 2, ghi |-> 2] /\ alive = FALSE
     /\ byHash = {} /\ cnt = 0 /\ nbytes = 0 /\ nsend = 0 /\ lists = <<>> /\ sweepL = <<>>
     /\ skew = 0 /\ staleSwept = FALSE /\ hist = <<Rec("Init", [x |-> 0], [x |-> 0])>>
 
